@@ -81,6 +81,46 @@ def fam_class():
             def observation(self, state, input, t=None):
                 return super().observation(state, input, t) + self.delta
 
+        class AliasFam(FamNLS):
+            """user callbacks that return their ARGUMENT, a VIEW of it or a stored buffer (direct / partial state measurement
+            written as indexing, identity transition, input pass-through, constant transition from a buffer). The parameters
+            of the family are set to the same affine maps, so model and references are unchanged — only the memory differs."""
+            f_mode = "affine"
+            g_mode = "affine"
+
+            def state_transition(self, state, input, t=None):
+                if self.f_mode == "affine" or getattr(self, "fail_next", ""):
+                    return super().state_transition(state, input, t)
+                if self.f_mode == "state":
+                    return state
+                if self.f_mode == "input":
+                    return input if input.shape == state.shape else input.expand_as(state)
+                return self.p_c1.expand_as(state)            # "buffer"
+
+            def observation(self, state, input, t=None):
+                if self.g_mode == "affine" or getattr(self, "fail_next", ""):
+                    return super().observation(state, input, t)
+                if self.g_mode == "state":
+                    return state
+                return state[..., :self.p_c2.shape[0]]        # "state-view"
+
+        class PropJacFam(FamNLS):
+            """a user's subclass that overrides the PROPERTIES `A`, `C` of NLS with its analytic Jacobians (instead of autograd)"""
+
+            def _jac(self, M0, a, W, V, ph):
+                arg = self._ref_state @ W.mT + self._ref_input @ V.mT + ph
+                return M0 + (a * torch.cos(arg)).unsqueeze(-1) * W
+
+            @property
+            def A(self):
+                return self._jac(self.p_A0, self.p_af, self.p_Wf, self.p_Vf, self.p_phf)
+
+            @property
+            def C(self):
+                return self._jac(self.p_C0, self.p_ag, self.p_Wg, self.p_Vg, self.p_phg)
+
+        FamNLS.PropJac = PropJacFam
+        FamNLS.Alias = AliasFam
         FamNLS.Sub = SubFam
         _FAM_CLASS = FamNLS
     return _FAM_CLASS
@@ -332,7 +372,9 @@ def mp_kalman_predict(fam: MpFam, u, Q, R, x, P):
     Pp = Pm - K * C * Pm
     Aa, Ca = fam.jfpre(x, u), fam.jgpre(x, u)
     Pm_abs = Aa * mabs(P) * Aa.T + mabs(Q)
-    K_pre = Pm_abs * Ca.T * mabs(Si)          # |P^-||C|^T|S^-1| >= |K| (cancellation inside the products)
+    # |P^-||C|^T (||S^-1||_max 1 1^T) >= |K|: the computed inverse carries rounding errors of size eps*kappa*||S^-1|| in EVERY
+    # entry (also where the exact inverse is 0), so the bound is dense over the measurements but keeps the row (state) scaling
+    K_pre = Pm_abs * Ca.T * (mp.ones(Si.rows, Si.cols) * mmax(Si))
     KC = K_pre * Ca
     scaleP = mmax(Pm_abs + KC * Pm_abs)
     xm_pre = fam.fpre(x, u)
